@@ -70,8 +70,8 @@ func init() {
 			{Name: "generator never flags deprecated fields", File: c17GeneratorGo, Rule: "C17-R3", Key: "Field.IsDeprecated/written-by-generator",
 				Old: "\t\t\ti.currentField.IsDeprecated = true\n", New: ""},
 			// R4
-			{Name: "object import forgets the implemented interfaces", File: c17ConverterGo, Rule: "C17-R3", Key: "FullType.Interfaces/read-by-converter",
-				Old: "\tiRefs := make([]int, len(fullType.Interfaces))\n\tfor i := range iRefs {\n\t\tiRefs[i] = j.importType(fullType.Interfaces[i])\n\t}\n", New: "\tvar iRefs []int\n"},
+			{Name: "object import forgets the implemented interfaces", File: c17ConverterGo, Rule: "C17-R4", Key: "OBJECT/Interfaces",
+				Old: "\tiRefs := make([]int, len(fullType.Interfaces))\n\tfor i := range iRefs {\n\t\tiRefs[i] = j.importType(fullType.Interfaces[i])\n\t}\n\n\tj.doc.ImportObjectTypeDefinition(", New: "\tvar iRefs []int\n\n\tj.doc.ImportObjectTypeDefinition("},
 			{Name: "enum import forgets the description", File: c17ConverterGo, Rule: "C17-R4", Key: "ENUM/Description",
 				Old: "\tj.doc.ImportEnumTypeDefinition(\n\t\tfullType.Name,\n\t\tfullType.Description,\n", New: "\tj.doc.ImportEnumTypeDefinition(\n\t\tfullType.Name,\n\t\t\"\",\n"},
 			{Name: "input object import forgets the description", File: c17ConverterGo, Rule: "C17-R4", Key: "INPUTOBJECT/Description",
